@@ -462,6 +462,13 @@ func backward(v ssa.Value, through func(ssa.Value) bool) map[ssa.Value]bool {
 			} else {
 				rec(y.X)
 			}
+		case *ssa.Alloc:
+			// address-taken local (e.g. an array that is sliced): what was stored into it
+			for _, r := range *y.Referrers() {
+				if st, ok := r.(*ssa.Store); ok && st.Addr == y {
+					rec(st.Val)
+				}
+			}
 		case *ssa.FieldAddr:
 			rec(y.X)
 		case *ssa.Field:
